@@ -10,6 +10,7 @@ such pairs by version first (4 before 6), then by address.  `Store` = the live s
 step they make on the store; `evalQFast` / `runQs` the spelling the driver runs.
 -/
 import NetaddrVerif.Props.C07
+import NetaddrVerif.Props.C06
 import NetaddrVerif.Lemmas.IPSetIter1
 import NetaddrVerif.Lemmas.IPSetIter3
 import NetaddrVerif.Lemmas.C04M
@@ -136,6 +137,43 @@ theorem bin_pure (sets : Store) (k i j : Nat) (o : BinOp) :
    bin_result sets k i j o, rfl⟩
 
 example : (2 : Nat) ≠ 0 ∧ (2 : Nat) ≠ 1 := by decide
+
+/-! ### queries anywhere in a history -/
+
+/-- the constructions / mutations of a mixed history, queries dropped -/
+def opsOf : List Step → List Op
+  | [] => []
+  | .op o :: r => o :: opsOf r
+  | .q _ :: r => opsOf r
+
+/-- a mixed history of operations and queries, run from no sets at all -/
+def runSteps (maxint : Nat) (steps : List Step) : Store :=
+  steps.foldl (fun st x => (stepAny maxint st x).1) []
+
+/-- **queries can be erased from a history**: interleaving any queries at any points changes
+    nothing for the operations that follow — the store reached is the one the operations alone
+    reach -/
+theorem queries_erasable (maxint : Nat) (steps : List Step) :
+    runSteps maxint steps = runOps (opsOf steps) := by
+  unfold runSteps runOps
+  generalize ([] : Store) = st
+  induction steps generalizing st with
+  | nil => rfl
+  | cons x r ih =>
+    cases x with
+    | op o => simp only [List.foldl_cons, opsOf]; exact ih _
+    | q q => simp only [List.foldl_cons, opsOf]; exact ih _
+
+/-- hence every set reached by a history with queries sprinkled in is canonical and denotes
+    what plain set theory assigns to its operations (C06.reachable), and every query asked at the
+    end is answered about exactly that set -/
+theorem reachable_mixed (maxint : Nat) (steps : List Step) (hok : ∀ op ∈ opsOf steps, op.OK) (i : Nat) :
+    Inv (getSet (runSteps maxint steps) i) ∧
+    ∀ u a, denS (getSet (runSteps maxint steps) i) u a ↔ (runBoth (opsOf steps)).2 i u a := by
+  rw [queries_erasable]; exact C06.reachable (opsOf steps) hok i
+
+example : opsOf [.op (.newNet 0 ⟨4, 0x0a000005, 24⟩), .q (.len 0), .op (.add 0 (.net ⟨6, 1, 128⟩)), .q (.iter 0)] =
+    [.newNet 0 ⟨4, 0x0a000005, 24⟩, .add 0 (.net ⟨6, 1, 128⟩)] := rfl
 
 /-! ### none of the queries fails, except the two documented errors -/
 
